@@ -168,6 +168,8 @@ class Ctx:
                 'known_findings_reported': [
                     {'rule': v['rule'], 'function': v['function'], 'construct': v['construct'],
                      'where': v['where']} for v in listed],
+                'configuration': os.environ.get('NV_CONFIG', 'release'),
+                'thorough': getattr(self, 'thorough', None),
                 'fact_cache_key': self.info['cache_key'],
                 'fresh_extraction': self.info['fresh_extraction'],
             },
